@@ -88,10 +88,12 @@ PROPS = {
     ),
     "C10": dict(
         level="exploration",
-        modules=["specs.patching", "specs.aclmatch"],
+        modules=["specs.patching", "specs.aclmatch", "specs.mergedicts"],
         bounded=[("bounded.c10", "run")],
         assumes=["A2", "A6", "A9"],
-        trusted=["merge_dicts, TreeGenerator block bookkeeping, _run_partial_generator: bounded only",
+        trusted=["merge_dicts on config trees is proved equal to its spec and the spec is proved to be the union: a block path exists in "
+                 "the merge of any number of trees iff it exists in one of them (lemma merge_is_union_of_paths); the list / scalar "
+                 "branches of merge_dicts (ACL rule dicts), TreeGenerator block bookkeeping and _run_partial_generator are bounded only",
                  "match_row_to_acl is proved to raise AclNotExclusiveError iff two generators' rules match the row (exclusive mode) "
                  "relative to the assumed contracts of _find_acl_matches (regex matching) and merge_dicts"],
     ),
@@ -161,11 +163,15 @@ PROPS = {
     ),
     "C17": dict(
         level="exploration",
-        modules=["specs.implicit", "specs.rbcommon", "specs.patching"],
+        modules=["specs.implicit", "specs.rbcommon", "specs.patching", "specs.mergedicts"],
         bounded=[("bounded.c17", "run")],
         assumes=["A2", "A6", "A9"],
-        trusted=["merge_dicts is not under a discharged contract; re.Pattern.match is opaque (re_match)",
-                 "lemmas L-C17a-d (sub-tree, iff, idempotence) are not proved: bounded only"],
+        trusted=["implicit.config and compile_tree (parsed default text -> rule table) are proved; merge_dicts on trees is proved to be "
+                 "the union of paths, so every explicit line is kept by t + implicit(t) (lemma explicit_lines_are_kept) and merging a "
+                 "tree with itself changes nothing; re.Pattern.match and syntax.compile_row_regexp are opaque; _implicit_tree (the per-hardware default text) "
+                 "and syntax.parse_text are bounded only",
+                 "the composition in gen._old_new_per_device (merge_dicts(t, implicit.config(t, rules))) and the lemmas `iff` / "
+                 "`implicit(m) adds nothing` over it are not proved: bounded only"],
     ),
     "C01": dict(
         level="exploration",
